@@ -20,11 +20,35 @@ namespace Attrs.C13
     container classes, same object identities, same serializer positions, and the same `TypeError`s.
     No exclusion: K13a–c are repaired. -/
 theorem C13_code_computes_reference (c : Case) (s : Out) (hs : shape c = some s) :
-    run c = realise s := run_refines c s hs
+    runPlain c = realise s := run_refines c s hs
+
+/-- **C13_fault_propagates**: when a callback (value_serializer, filter, dict_factory, tuple_factory) raises,
+    the call raises that exception — nothing is swallowed, no partial result is returned; when the chosen call
+    is never reached, the call is the fault-free one. -/
+theorem C13_fault_propagates (c : Case) :
+    (fires c = true → (model c).result.eqv (.exc "fault") = true ∧ (model c).faultFired = true) ∧
+    (fires c = false → run c = runPlain c ∧ (model c).faultFired = false) := by
+  constructor
+  · intro h; simp [model, run, h, Res.ofExcept, Res.eqv]
+  · intro h; simp [model, run, h]
+
+/-- with `recurse=False` the filter is called once per field and the serializer once per passing field -/
+theorem C13_callback_counts_flat (c : Case) (cls : Nat) (h : Option Nat) (fs : List (FI × PVal))
+    (hv : c.value = .inst cls h fs) (ha : c.api = .asdict) (hr : c.recurse = false) :
+    (c.filter ≠ .none → calls c .filter = fs.length) ∧
+    (c.ser ≠ .off → calls c .ser = (passing c.filter fs).length) := by
+  constructor
+  · intro hf
+    have := cFlat_filter c.opts (by simpa [Case.opts] using hf) fs
+    simp [calls, hv, ha, hr, one, this]
+  · intro hs
+    have := cFlat_ser c.opts (by simpa [Case.opts, ha] using hs) fs
+    simp only [calls, hv, ha, hr, one, this, passing]
+    simp [Case.opts]
 
 /-- **C13_model_meets_spec**: on every case (no well-formedness, no known-deviation hypothesis). -/
 theorem C13_model_meets_spec (c : Case) : spec c (model c) = true := by
-  have hval : ∀ v, demanded c = .value v → run c = .ok v := by
+  have hval : ∀ v, demanded c = .value v → runPlain c = .ok v := by
     intro v hv
     unfold demanded at hv
     cases hs : shape c with
@@ -34,7 +58,7 @@ theorem C13_model_meets_spec (c : Case) : spec c (model c) = true := by
       cases hr : realise s with
       | error e => simp [hs, hr] at hv
       | ok w => simp [hs, hr] at hv; rw [hrun, hr, hv]
-  have hexc : demanded c = .raises → ∃ e, run c = .error e := by
+  have hexc : demanded c = .raises → ∃ e, runPlain c = .error e := by
     intro hv
     unfold demanded at hv
     cases hs : shape c with
@@ -45,13 +69,18 @@ theorem C13_model_meets_spec (c : Case) : spec c (model c) = true := by
       | error e => exact ⟨e, by rw [hrun, hr]⟩
       | ok w => simp [hs, hr] at hv
   unfold spec
-  cases hdm : demanded c with
-  | nothing => cases hrt : roundtripApplies c <;> simp [model, hrt]
-  | value v =>
-    cases hrt : roundtripApplies c <;> simp [model, hrt, hval v hdm, Res.ofExcept, Res.eqv, eqv_refl]
-  | raises =>
-    obtain ⟨e, he⟩ := hexc hdm
-    cases hrt : roundtripApplies c <;> simp [model, hrt, he, Res.ofExcept, Res.isExc]
+  cases hf : fires c with
+  | true =>
+    cases hrt : roundtripApplies c <;> simp [model, run, hf, hrt, Res.ofExcept, Res.eqv]
+  | false =>
+    cases hdm : demanded c with
+    | nothing => cases hrt : roundtripApplies c <;> simp [model, run, hf, hrt]
+    | value v =>
+      cases hrt : roundtripApplies c <;>
+        simp [model, run, hf, hrt, hval v hdm, Res.ofExcept, Res.eqv, eqv_refl]
+    | raises =>
+      obtain ⟨e, he⟩ := hexc hdm
+      cases hrt : roundtripApplies c <;> simp [model, run, hf, hrt, he, Res.ofExcept, Res.isExc]
 
 theorem C13_known_empty (c : Case) : known c = [] := rfl
 
@@ -249,10 +278,10 @@ theorem C13_pure (c : Case) : (model c).argUnchanged = true := rfl
     dict_factory. -/
 theorem C13_roundtrip_flat (c : Case) (h : roundtripApplies c = true) (cls : Nat) (hh : Option Nat)
     (fs : List (FI × PVal)) (hv : c.value = .inst cls hh fs) (hd : namesDistinct (fs.map (·.1.name)) = true) :
-    ∃ items, run c = .ok (.record c.opts.df items) ∧
+    ∃ items, runPlain c = .ok (.record c.opts.df items) ∧
       construct cls (fs.map (·.1)) items = some (.inst cls none fs) ∧ hh = none := by
   simp only [roundtripApplies, hv, Bool.and_eq_true, beq_iff_eq] at h
-  obtain ⟨⟨⟨hapi, hflt⟩, hser⟩, hnone, hall⟩ := h
+  obtain ⟨⟨⟨⟨hapi, hflt⟩, hser⟩, _⟩, hnone, hall⟩ := h
   have ha : allAtoms fs = true := by
     simp only [allAtoms, List.all_eq_true] at hall ⊢
     intro p hp; have := hall p hp; simp only [Bool.and_eq_true] at this; exact this.1.1
@@ -263,8 +292,8 @@ theorem C13_roundtrip_flat (c : Case) (h : roundtripApplies c = true) (cls : Nat
   have hs : c.opts.ser = .off := by simp [Case.opts, hapi, hser]
   refine ⟨flatItems fs, ?_, construct_flat cls fs hd ha hpub, by simpa using hnone⟩
   cases hrec : c.recurse
-  · simp [run, hapi, hv, asdictTop, hrec, flatD_flat c.opts cls hf hs]
-  · simp [run, hapi, hv, asdictTop, hrec, fieldsD_flat c.opts cls hf hs fs ha]
+  · simp [runPlain, hapi, hv, asdictTop, hrec, flatD_flat c.opts cls hf hs]
+  · simp [runPlain, hapi, hv, asdictTop, hrec, fieldsD_flat c.opts cls hf hs fs ha]
 
 /-- **C13_exclude_is_negation**: `exclude(*what)` passes exactly what `include(*what)` rejects; and `include`
     passes iff the value's exact class, the attribute's name or the attribute itself is listed. -/
@@ -277,8 +306,8 @@ theorem C13_exclude_is_negation (ts : List TyTag) (ns : List String) (ss : List 
 /-- **C13_nextgen_retains**: `attrs.asdict` / `attrs.astuple` are `attr.asdict` / `attr.astuple` with
     `retain_collection_types=True` and the default factories, whatever else is passed. -/
 theorem C13_nextgen_retains (c : Case) (h : c.ng = true) :
-    run c = run { c with ng := false, retain := true, dictFactory := .dict, tupleFactory := .tuple } := by
-  simp [run, Case.opts, h]
+    runPlain c = runPlain { c with ng := false, retain := true, dictFactory := .dict, tupleFactory := .tuple } := by
+  simp [runPlain, Case.opts, h]
 
 /-! ## Repaired deviations K13a / K13b / K13c: the former witnesses now satisfy the specification, and they
     discriminate — the model of the unrepaired code (`Proofs/C13Old.lean`) fails it on each -/
@@ -298,10 +327,10 @@ theorem K13c_fixed : wf witnessK13c = true ∧ spec witnessK13c (model witnessK1
 /-- what the repaired code returns on them: the tuple key stays a (deep) tuple, the one-field namedtuple
     holds its item, the filter reaches the instance inside the dict -/
 theorem K13_fixed_values :
-    run witnessK13a = .ok (.record .dict [("x", .dict false .dict
+    runPlain witnessK13a = .ok (.record .dict [("x", .dict false .dict
       [(.coll false .tuple [.coll false .tuple [.atom (.int 1)], .atom (.int 2)], .atom (.int 3))]), ("y", .atom (.int 4))]) ∧
-    run witnessK13b = .ok (.record .dict [("x", .coll false (.ntuple 0) [.atom (.int 1)]), ("y", .atom (.int 4))]) ∧
-    run witnessK13c = .ok (.coll false .tuple [.dict false .dict
+    runPlain witnessK13b = .ok (.record .dict [("x", .coll false (.ntuple 0) [.atom (.int 1)]), ("y", .atom (.int 4))]) ∧
+    runPlain witnessK13c = .ok (.coll false .tuple [.dict false .dict
       [(.atom (.int 1), .coll false .tuple [.atom (.int 2)])]]) := by
   refine ⟨?_, ?_, ?_⟩ <;> rfl
 
@@ -311,7 +340,7 @@ theorem K13_fixed_values :
     conversion succeeds -/
 def sample : Case :=
   { api := .asdict, ng := false, recurse := true, retain := true, filter := .excl [.str] ["nope"] [],
-    dictFactory := .odict, tupleFactory := .tuple, ser := .wrapLeaf,
+    dictFactory := .odict, tupleFactory := .tuple, ser := .wrapLeaf, fault := none,
     value := .inst 0 none
       [(fx, .coll (.ntuple 0) [int 1, .coll (.ntuple 1) [int 2, .coll .frozenset [int 3]]]),
        (fy, .dict .dict [(.coll .tuple [int 1, int 2], .coll .list [.inst 0 none [(fx, int 5), (fy, .atom (.str 1))]])])] }
@@ -320,5 +349,11 @@ example : wf sample = true ∧ (∃ v, run sample = .ok v) := ⟨by decide, _, r
 example : roundtripApplies { witnessK13b with value := .inst 0 none [(fx, int 1), (fy, int 4)] } = true := by
   decide +kernel
 example : instOnly (.inst 0 none [(fx, .inst 0 none [(fx, int 1), (fy, int 2)]), (fy, int 4)]) = true := by decide
+
+/-- faults: in `sample` the serializer is called 8 times; the 8th call raising makes the call raise, a 9th does
+    not exist, so the call completes -/
+example : calls sample .ser = 8 ∧ fires { sample with fault := some ⟨.ser, 8⟩ } = true ∧
+    fires { sample with fault := some ⟨.ser, 9⟩ } = false ∧
+    (model { sample with fault := some ⟨.ser, 8⟩ }).result.eqv (.exc "fault") = true := by decide
 
 end Attrs.C13
